@@ -149,6 +149,11 @@ impl Decision {
     }
 }
 
+/// Actor event loops spawned in this process so far.  Every `Context` of the crate is created right
+/// before its loop is handed to the spawner and context ids count up from 0, so this is the context
+/// id of the next actor (checked against the real id wherever the harness gets to see one).
+static ACTOR_SPAWNS: std::sync::atomic::AtomicU64 = std::sync::atomic::AtomicU64::new(0);
+
 impl Backend for Exec {
     fn spawn(&self, fut: BoxFut, is_actor: bool) {
         let name = {
@@ -162,6 +167,10 @@ impl Backend for Exec {
                 }
             }
         };
+        if is_actor {
+            let aid = ACTOR_SPAWNS.fetch_add(1, Ordering::SeqCst);
+            crate::scenario::bind_name(aid, &name);
+        }
         self.add(fut, name, if is_actor { Kind::Actor } else { Kind::Timer });
     }
     fn sleep(&self, d: Duration) -> BoxFut {
